@@ -964,10 +964,28 @@ func (vc *VC) binop(fr *Frame, x *ssa.BinOp, st *State) Val {
 		}
 		return Val{T: fmt.Sprintf("(ite (>= %s 0) (mod %s %s) (- (mod (- %s) %s)))", lt, lt, rt, lt, rt), Typ: t}
 	case token.EQL:
+		if isFloat { // IEEE: NaN is not equal to anything (f.* are defined in contracts/lib.spec over an abstract NaN predicate)
+			return Val{T: fmt.Sprintf("(f.eq %s %s)", lt, rt), Typ: t}
+		}
 		return Val{T: vc.eqTerm(l, r, xt), Typ: t}
 	case token.NEQ:
+		if isFloat {
+			return Val{T: fmt.Sprintf("(not (f.eq %s %s))", lt, rt), Typ: t}
+		}
 		return Val{T: fmt.Sprintf("(not %s)", vc.eqTerm(l, r, xt)), Typ: t}
 	case token.LSS, token.LEQ, token.GTR, token.GEQ:
+		if isFloat { // every ordered comparison with a NaN operand is false
+			switch x.Op {
+			case token.LSS:
+				return Val{T: fmt.Sprintf("(f.lt %s %s)", lt, rt), Typ: t}
+			case token.GTR:
+				return Val{T: fmt.Sprintf("(f.lt %s %s)", rt, lt), Typ: t}
+			case token.LEQ:
+				return Val{T: fmt.Sprintf("(or (f.lt %s %s) (f.eq %s %s))", lt, rt, lt, rt), Typ: t}
+			default:
+				return Val{T: fmt.Sprintf("(or (f.lt %s %s) (f.eq %s %s))", rt, lt, lt, rt), Typ: t}
+			}
+		}
 		op := map[token.Token]string{token.LSS: "<", token.LEQ: "<=", token.GTR: ">", token.GEQ: ">="}[x.Op]
 		if isStr {
 			sop := map[token.Token]string{token.LSS: "str.<", token.LEQ: "str.<="}[x.Op]
@@ -1089,12 +1107,15 @@ func (vc *VC) typeAssert(fr *Frame, x *ssa.TypeAssert, st *State) Val {
 		okc := vc.define("taok", "Bool", ok)
 		zero := vc.zeroVal(resT)
 		res := vc.termVal(vc.define("taval", vc.sortOf(resT), fmt.Sprintf("(ite %s %s %s)", okc, val, vc.valTerm(zero))), resT)
+		vc.assume(st, vc.rangeAssume(res)) // the content of an interface value is a well-formed value of its type
 		return Val{Tuple: []Val{res, {T: okc, Typ: types.Typ[types.Bool]}}, Typ: x.Type()}
 	}
 	if vc.safe(fr) {
 		vc.oblige(st, fmt.Sprintf("%s#safe.assert.%d", vc.fnName(), vc.ord(fr, "assert")), "safe", ok, "type assertion may panic", x.Pos())
 	}
-	return vc.termVal(val, resT)
+	rv := vc.termVal(val, resT)
+	vc.assume(st, fmt.Sprintf("(=> %s %s)", ok, orTrue(vc.rangeAssume(rv))))
+	return rv
 }
 
 func (vc *VC) convert(fr *Frame, x *ssa.Convert, st *State) Val {
@@ -1236,6 +1257,13 @@ func (vc *VC) sliceOp(fr *Frame, x *ssa.Slice, st *State) Val {
 	}
 	vc.fatalf("unsupported slice operand %v", x.X.Type())
 	return vc.zeroVal(x.Type())
+}
+
+func orTrue(f string) string {
+	if f == "" {
+		return "true"
+	}
+	return f
 }
 
 func subT(a, b string) string {
